@@ -83,6 +83,11 @@ func genCase(t *rapid.T) Case {
 		}
 	}
 	c := Case{H: gen.History{Schema: schema, MaxPointSize: 1 << 20, CacheLimit: -1}}
+	if !chain && !train && rapid.IntRange(0, 3).Draw(t, "smallPoints") == 0 {
+		// a small per-point size limit: some inserts and merged updates overflow it and are rejected in the
+		// middle of a batch, after other points of the batch have already reached the indexes
+		c.H.MaxPointSize = rapid.IntRange(100, 400).Draw(t, "maxPointSize")
+	}
 	g := gen.NewHistoryGen(t, schema, c.H.MaxPointSize, ho)
 	n := rapid.IntRange(1, ho.MaxSteps).Draw(t, "nsteps")
 	var trainEarly []uuid.UUID
